@@ -10,7 +10,7 @@ COMPUTERS = ("superadditive", "superadditive_cached")
 
 
 def ns(run):
-    return (2, 3, 4, 5) if run.tier == "quick" else (2, 3, 4, 5, 6)
+    return (2, 3, 4, 5, 6)
 
 
 def contract_functions(run, pkg):
